@@ -21,7 +21,7 @@ CONV = 'pyphysim.util.conversion'
 EXPLANATION = (
     'Bounded histories: every sequence (length <= 3 quick / <= 4 thorough) '
     'over {randomize(layout A|B), init_from_channel_matrix(layout A|B), '
-    'set_pathloss(M | None), noise_var = v | None, set_post_filter, read H, '
+    'set_pathloss(M | None), noise_var = v | None, set_post_filter(W | None), read H, '
     'read big_H} is applied to a real MultiUserChannelMatrix / '
     'MultiUserChannelMatrixExtInt object with symbolic complex channel '
     'entries (RNG stub), symbolic positive path-loss entries and symbolic '
@@ -60,8 +60,8 @@ class _StubRS:
 
 
 def _ops(extint):
-    ops = ['RA', 'RB', 'IA', 'IB', 'P1', 'P2', 'P0', 'N1', 'N0', 'W', 'rH',
-           'rB', 'T']
+    ops = ['RA', 'RB', 'IA', 'IB', 'P1', 'P2', 'P0', 'N1', 'N0', 'W', 'W0',
+           'rH', 'rB', 'T']
     return ops
 
 
@@ -131,6 +131,10 @@ def _apply(ch, sh, op, mk, extint, tag):
             W[k] = mk.cmat('W%d' % k + tag, (Nr[k], Nr[k]))
         ch.set_post_filter(W)
         sh.W = W
+    elif op == 'W0':
+        # remove the post-filters again
+        ch.set_post_filter(None)
+        sh.W = None
     elif op == 'rH':
         _ = ch.H
     elif op == 'rB':
@@ -185,7 +189,7 @@ class Views(Harness):
     bounds = ('K=2; antenna layouts A=(Nr [1,2], Nt [2,1]) and B=(Nr [2,1], '
               'Nt [1,2]) (same totals, different split); histories = initial randomize/init + up to 2 '
               '(quick; plus all update-read/transmit-update triples) / 3 '
-              '(thorough) further operations from a 13-letter alphabet '
+              '(thorough) further operations from a 14-letter alphabet '
               '(layout C = Nr [2,1], Nt [1,1] in a few extra histories); plain and external-interference (1 source, 1 '
               'antenna) channels; 1 data symbol per antenna')
     stubs = ('_RS_channel / _RS_noise -> stub whose randn returns fresh '
@@ -471,7 +475,7 @@ HARNESSES = [Views()]
 MANIFEST = dict(
     category='model_checking',
     text='Bounded model checking of the channel object as a state machine: '
-    'all operation histories up to the stated length over a 13-letter '
+    'all operation histories up to the stated length over a 14-letter '
     'alphabet (including cache-populating reads and antenna-layout changes), '
     'with symbolic matrices, path losses, noise and data; after each history '
     'every public view is proved equal (polynomial normal form with sqrt '
